@@ -13,7 +13,8 @@ Statement of the property, clause by clause:
         alias), C03_write_leaves_other_allocations, C03_reserve_fresh_block (fill reads back),
         C03_nonwriting_op_preserves (every other operation keeps every live memory's bytes)
   (c) growing, compacting, re-aligning never changes what a reservation reads back
-        C03_packing_preserves (resize / shrinkToFit / setAlignment, and the growth inside
+        C03_packing_preserves, C03_packing_is_identity_on_view (resize / shrinkToFit / setAlignment
+        are the identity on the abstract map memory ↦ bytes), and the growth inside
         reserve via C03_nonwriting_op_preserves); aliasing (slices stay inside their parent at
         the same place) is part of both
   release: C03_release_keeps_others.
@@ -69,13 +70,17 @@ theorem C03_reserve_fresh_block (ops : List Op) (i k n : Nat) (p : Pool)
 /-- (a) a slice lies inside its parent, in the parent's allocation, over the parent's bytes -/
 theorem C03_slice_inside_parent (ops : List Op) (k j off i bytes : Nat) (cnt : Int) (p : Pool) (r : Resv)
     (hloc : (run Gen.poolCfg ops).locate j = some (.inPool i p r))
-    (hp : (run Gen.poolCfg ops).pool i = some p) (hf : findSlot j p.resv = some r)
     (hk : k < NSLOT) (hfree : (run Gen.poolCfg ops).slotLive k = false) (hcnt : -1 ≤ cnt)
     (hsb : sliceBytes r.size off cnt = .ok bytes) :
     (step Gen.poolCfg (run Gen.poolCfg ops) (.slice k j off cnt)).2 = .ok ∧ off + bytes ≤ r.size ∧
     ∃ p' x, (step Gen.poolCfg (run Gen.poolCfg ops) (.slice k j off cnt)).1.pool i = some p' ∧
       findSlot k p'.resv = some x ∧ x.off = r.off + off ∧ x.size = bytes ∧ x.fam = r.fam ∧ p'.buf = p.buf :=
-  step_slice_new C03_source_is_repaired (run_inv C03_source_is_repaired ops) hloc hp hf hk hfree hcnt hsb
+  step_slice_new C03_source_is_repaired (run_inv C03_source_is_repaired ops) hloc (locate_inPool hloc).1
+    (locate_inPool hloc).2.1 hk hfree hcnt hsb
+
+example : ∃ ops p r, (run Gen.poolCfg ops).locate 0 = some (.inPool 0 p r) ∧ r.size = 6 ∧
+    (run Gen.poolCfg ops).slotLive 1 = false ∧ sliceBytes r.size 2 (-1) = .ok 4 :=
+  ⟨[.pool 0, .align 0 4, .reserve 0 0 6], _, _, rfl, rfl, by decide, by decide⟩
 
 /-- (b),(c) every operation other than write / release / pfree / freeall — in particular reserve
     (with its internal growth and packing), slice, resize, shrinkToFit, setAlignment — keeps every
@@ -103,18 +108,30 @@ example : ∃ ops p p', (run Gen.poolCfg ops).pool 0 = some p ∧
     (step Gen.poolCfg (run Gen.poolCfg ops) (.align 0 64)).1.pool 0 = some p' ∧ p'.buf ≠ p.buf :=
   ⟨[.pool 0, .align 0 8, .reserve 0 0 8, .reserve 0 1 8, .reserve 0 2 8, .release 1], _, _, rfl, rfl, by decide⟩
 
+/-- (c) as a refinement statement: with `view p k` = the bytes memory object `k` of pool `p` reads back
+    (`none` if there is no such reservation), resize / shrinkToFit / setAlignment are the identity on
+    the abstract map `memory object ↦ bytes` of every pool -/
+theorem C03_packing_is_identity_on_view (ops : List Op) (op : Op)
+    (hop : (∃ i n, op = .resize i n) ∨ (∃ i, op = .shrink i) ∨ (∃ i a, op = .align i a))
+    (j : Nat) (p p' : Pool) (hp : (run Gen.poolCfg ops).pool j = some p)
+    (hp' : (step Gen.poolCfg (run Gen.poolCfg ops) op).1.pool j = some p') : view p' = view p := by
+  have hk : op.keepsAll = true := by
+    rcases hop with ⟨i, n, rfl⟩ | ⟨i, rfl⟩ | ⟨i, a, rfl⟩ <;> rfl
+  exact view_eq_of (C03_nonwriting_op_preserves ops op hk j p p' hp hp').1
+    (step_packing_slots C03_source_is_repaired (run_inv C03_source_is_repaired ops) op hop j p p' hp hp')
+
 /-- (b) a write through reservation `k` sets exactly the addressed bytes of the backing buffer;
     hence every live memory (the reservation itself, its slices, its parent — every alias) reads
     the new data at the addressed positions and its old bytes everywhere else -/
 theorem C03_write_sets_exactly (ops : List Op) (k off len seed i : Nat) (p : Pool) (w : Resv)
-    (hloc : (run Gen.poolCfg ops).locate k = some (.inPool i p w))
-    (hp : (run Gen.poolCfg ops).pool i = some p) (hw : w ∈ p.resv) (hfit : off + len ≤ w.size) :
+    (hloc : (run Gen.poolCfg ops).locate k = some (.inPool i p w)) (hfit : off + len ≤ w.size) :
     step Gen.poolCfg (run Gen.poolCfg ops) (.write k off len seed) =
       ((run Gen.poolCfg ops).setPool i (some (p.write (w.off + off) (pattern seed len))), .ok) ∧
     (p.write (w.off + off) (pattern seed len)).resv = p.resv ∧
     (∀ q, (p.write (w.off + off) (pattern seed len)).buf[q]? =
       if w.off + off ≤ q ∧ q < w.off + off + len then (pattern seed len)[q - (w.off + off)]? else p.buf[q]?) ∧
     readAt (p.write (w.off + off) (pattern seed len)).buf (w.off + off) len = pattern seed len := by
+  obtain ⟨hp, _, hw⟩ := locate_inPool hloc
   have hinv := ((run_inv C03_source_is_repaired ops).pools i p hp).inv
   refine ⟨step_write_pool hloc hfit, rfl, ?_, ?_⟩
   · intro q
